@@ -962,6 +962,7 @@ DLLIMPORT cfg_value_t *cfg_setopt(cfg_t *cfg, cfg_opt_t *opt, const char *value)
 	long int i;
 	void *p;
 	char *endptr;
+	int created = 0;
 
 	if (!cfg || !opt) {
 		errno = EINVAL;
@@ -1091,6 +1092,7 @@ DLLIMPORT cfg_value_t *cfg_setopt(cfg_t *cfg, cfg_opt_t *opt, const char *value)
 		if (!val)
 			return NULL;
 		if (is_set(CFGF_MULTI, opt->flags) || val->section == NULL) {
+			created = 1;
 			if (val->section) {
 				val->section->path = NULL; /* Global search path */
 				cfg_free(val->section);
@@ -1143,7 +1145,8 @@ DLLIMPORT cfg_value_t *cfg_setopt(cfg_t *cfg, cfg_opt_t *opt, const char *value)
 				return NULL;
 			}
 		}
-		if (!is_set(CFGF_DEFINIT, opt->flags) && cfg_init_defaults(val->section) != CFG_SUCCESS) {
+		/* every new section gets its defaults, also a single one re-created after cfg_rmsec() */
+		if (created && cfg_init_defaults(val->section) != CFG_SUCCESS) {
 			cfg_free(val->section);
 			cfg_dropval(opt, val);
 			return NULL;
